@@ -200,11 +200,12 @@ You can provide input either as a file (as the first argument) or by piping logs
 					os.Exit(1)
 				}
 				// Always clean up downloaded log files, even if redaction fails
-				defer func() {
+				cleanup := func() {
 					if delErr := client.DeleteClusterLogs(cmd.Context(), files); delErr != nil {
 						fmt.Fprintf(os.Stderr, "Error cleaning up Atlas log files: %v\n", delErr)
 					}
-				}()
+				}
+				defer cleanup()
 				fileReader := &DefaultFileReader{}
 				for i, file := range files {
 					// Compose output file path with serial integer
@@ -212,6 +213,7 @@ You can provide input either as a file (as the first argument) or by piping logs
 					outWriter, err := os.Create(outPath)
 					if err != nil {
 						fmt.Fprintf(os.Stderr, "Error opening output file %s: %v\n", outPath, err)
+						cleanup() // os.Exit skips deferred calls
 						os.Exit(1)
 					}
 					defer outWriter.Close()
@@ -220,6 +222,7 @@ You can provide input either as a file (as the first argument) or by piping logs
 					totalLines, err := countLines(fileReader, file)
 					if err != nil {
 						fmt.Fprintf(os.Stderr, "Error counting lines in %s: %v\n", file, err)
+						cleanup() // os.Exit skips deferred calls
 						os.Exit(1)
 					}
 					bar = progressbar.NewOptions64(int64(totalLines),
@@ -248,6 +251,7 @@ You can provide input either as a file (as the first argument) or by piping logs
 					if err := ProcessMongoLogFile(fileReader, file, outWriter, bar); err != nil {
 						fmt.Fprintf(os.Stderr, "Error processing log file %s: %v\n", file, err)
 						outWriter.Close()
+						cleanup() // os.Exit skips deferred calls
 						os.Exit(1)
 					}
 					outWriter.Close()
